@@ -266,6 +266,7 @@ def kELoop : FileKind := ⟨"eloop", fun _ => .selfLink, some (.resolve, fun p =
 def kEUtf8 : FileKind :=
   ⟨"eutf8", fun _ => .text (b "module M\n" ++ [0xFF, 0xFE, 0x0A]), some (.resolve, fun p => .io .read (b p))⟩
 def kESyntax : FileKind := ⟨"esyntax", fun _ => srcText "module M\nstruct {\n", some (.parse, fun _ => .error "E002")⟩
+def kEHidden : FileKind := ⟨"ehidden", fun _ => srcText "module M\nstruct {\n", some (.parse, fun _ => .error "E002")⟩
 def kEAttr : FileKind :=
   ⟨"eattr", fun i => srcText s!"module M\n[foo] struct A{i} \{}\n", some (.attributes, fun _ => .error "E024")⟩
 def kEUnres : FileKind :=
@@ -278,9 +279,11 @@ def kERule : FileKind :=
   ⟨"erule", fun i => srcText s!"module M\ncompact struct V{i} \{}\n", some (.visitor, fun _ => .error "E018")⟩
 
 def warnKinds : List FileKind := [kWDep, kWLink, kWDoc, kWAllow]
-def errKinds : List FileKind := [kEMissing, kELoop, kEUtf8, kESyntax, kEAttr, kEUnres, kECycle, kERedef, kERule]
+def errKinds : List FileKind := [kEMissing, kELoop, kEUtf8, kESyntax, kEHidden, kEAttr, kEUnres, kECycle, kERedef, kERule]
 
 def fileName (i : Nat) : String := s!"f{i}.slice"
+/-- a file whose name starts with a dot is an input like any other when it is named on the command line -/
+def nameFor (i : Nat) (k : FileKind) : String := if k.tag == "ehidden" then s!".f{i}.slice" else fileName i
 
 /-- a program = one kind per file; `dup` names the first file a second time (DuplicateFile lint) -/
 structure Program where
@@ -291,7 +294,7 @@ def Program.tag (p : Program) : String :=
   "+".intercalate (p.kinds.map (·.tag)) ++ (if p.dup then "+dup" else "")
 
 def Program.files (p : Program) : List (String × FileSpec) :=
-  let fs := (List.range p.kinds.length).zip p.kinds |>.map fun (i, k) => (fileName i, k.text i)
+  let fs := (List.range p.kinds.length).zip p.kinds |>.map fun (i, k) => (nameFor i k, k.text i)
   if p.dup then fs ++ [(fileName 0, .again)] else fs
 
 def Program.outcomes (p : Program) : PhaseOutcomes :=
@@ -299,7 +302,7 @@ def Program.outcomes (p : Program) : PhaseOutcomes :=
   let at' (ph : Phase) : List Diag :=
     idx.flatMap fun (i, k) =>
       match k.emits with
-      | some (q, d) => if q == ph then List.replicate k.count (d ("../src/" ++ fileName i)) else []
+      | some (q, d) => if q == ph then List.replicate k.count (d ("../src/" ++ nameFor i k)) else []
       | none => []
   let readable := idx.filter fun (_, k) => !(k.emits.map (·.1) == some Phase.resolve)
   { resolve := at' .resolve ++ (if p.dup then [.lint "DuplicateFile" false] else []),
